@@ -86,6 +86,8 @@ def case(draw):
             "ignored_in_header": draw(st.integers(0, 3)) == 0, "merge": draw(st.integers(0, 3)) == 0,
             # the existing header names LicenseRef-acme, the request LicenseRef-ACME: two licences (identifiers are case-sensitive)
             "twin": draw(st.integers(0, 3)) == 0,
+            # the file is ISO-8859-1, not UTF-8
+            "latin1": draw(st.integers(0, 7)) == 0,
             "mirror": draw(st.integers(0, 5)) == 0, "bincontent": draw(st.sampled_from(["nonutf8", "controls"]))}
 
 
@@ -154,6 +156,14 @@ def check(ctx, c, table_walk=False):
                 # two closed ignore blocks in two comments, the second one further down: neither is a header
                 content += "\n" + "\n".join(wrap(["REUSE-IgnoreStart", "Copyright (C) 1998 Ignored Holder", "REUSE-IgnoreEnd"])) + "\nmore_code();\n"
             ctx.label(f"existing:ignore-block-on-top:{('closed', 'stray-end-then-open', 'two-blocks')[variant]}")
+        if c.get("latin1") and isinstance(content, str) and not c["binary"]:
+            # a text file in a legacy encoding (not valid UTF-8, not sniffed as binary): annotate refuses it — or, if it ever writes, the result
+            # still has to read back
+            try:
+                content = (content + "# caf\u00e9 au lait, na\u00efve r\u00e9sum\u00e9\n").encode("latin-1")
+                ctx.label("content:latin-1")
+            except UnicodeEncodeError:
+                pass
         files = {name: content}
         if existing and to_dotlicense:
             files[name + ".license"] = P.header_text("none", existing["cop"], existing["lic"], existing["con"], body="")
